@@ -279,4 +279,10 @@ example : encodeBody (Tape.str "A =PRINT") = [0x41, 0x20, 0xD4, 0xAB] := by deci
 example : encodeBody (Tape.str "A$=\"X\"+INKEY$") = [0x41, 0x24, 0xD4, 0x22, 0x58, 0x22, 0xC7, 0xFF, 0xA0] := by decide +kernel
 example : encodeBody (Tape.str "(+PRINT\"X\"") = [0x28, 0xC7, 0xAB, 0x22, 0x58, 0x22] := by decide +kernel
 
+/-- the model's bounded recursion is the source's recursion: `appendAsToken` calls itself at most once
+    (after the early-match branch the pending text is empty), so the fuel of the model is never what
+    stops it -/
+theorem tokenizer_recursion_bounded (k : Nat) (c : Ctx) (inp : Str) : appendAsTokenFuel (3 + k) c inp = appendAsToken c inp :=
+  appendAsToken_fuel_enough k c inp
+
 end Moto.C13
